@@ -11,8 +11,11 @@ Proof. induction l as [|m r IH]; cbn; [reflexivity | exact IH]. Qed.
 Theorem assemble_plain r marker a :
   assemble (map CMember r) marker (map CMember a) = mkseq (r ++ a) [] (if marker then Some (length r) else None).
 Proof.
-  unfold assemble. rewrite <- map_app, only_members_map, only_refs_map, map_length. reflexivity.
+  unfold assemble. rewrite <- map_app, !only_members_map, only_refs_map. reflexivity.
 Qed.
+
+Lemma only_members_app a b : only_members (a ++ b) = only_members a ++ only_members b.
+Proof. induction a as [|[m|c] r IH]; cbn; [reflexivity | now rewrite IH | exact IH]. Qed.
 
 (* what one member must become *)
 Definition spec_field (parent : str) (addition : bool) (m : member) : field :=
@@ -92,6 +95,17 @@ Proof.
   rewrite IH. f_equal. f_equal. f_equal. lia.
 Qed.
 
+(* ... also when COMPONENTS OF entries stand between the components (before the linker copies anything): the type's own
+   components keep their order and their root / addition status wherever the entries are written *)
+Theorem fields_of_assembled_any parent root marker adds :
+  fields_of parent (assemble root marker adds) =
+  map (spec_field parent false) (only_members root) ++ map (spec_field parent marker) (only_members adds).
+Proof.
+  unfold assemble, fields_of. cbn [members extensible]. rewrite only_members_app. destruct marker.
+  - rewrite format_from_app. cbn [Nat.add]. rewrite format_from_below by lia. rewrite format_from_above by lia. reflexivity.
+  - rewrite format_from_none. now rewrite map_app.
+Qed.
+
 Theorem variants_of_assembled parent r marker a :
   variants_of parent (assemble (map CMember r) marker (map CMember a)) =
   map (spec_variant parent false) r ++ map (spec_variant parent marker) a.
@@ -137,12 +151,12 @@ Proof.
   - eexists. reflexivity.
 Qed.
 
-(* the index of the first addition counts COMPONENTS OF entries of the root although they are not members
-   (known finding C02-components-of-extension-index) *)
+(* the index of the first addition does not count COMPONENTS OF entries of the root (it did until the fix of
+   C02-components-of-extension-index: `extensible = Some 2`, no addition marked) *)
 Definition mA : member := mkmember [97]%N (KPlain [98;111;111;108]%N) Required false.
 Definition mB : member := mkmember [98]%N (KPlain [98;111;111;108]%N) Required false.
-Theorem components_of_index_refuted :
+Theorem components_of_index_example :
   let s := assemble [CComponentsOf [88]%N; CMember mA] true [CMember mB] in
-  members s = [mA; mB] /\ extensible s = Some 2%nat /\
-  map f_ext (fields_of [80]%N s) = [0%N; 0%N].
+  members s = [mA; mB] /\ extensible s = Some 1%nat /\
+  map f_ext (fields_of [80]%N s) = [0%N; 1%N].
 Proof. vm_compute. repeat split. Qed.
